@@ -104,7 +104,8 @@ def make_probe_class():
 _PROBE = None
 
 
-def build(cfg, rs):
+def build(cfg, rs, tasks=None):
+    """tasks: reuse these task objects (a graph over the same objects as an earlier one)."""
     global _PROBE
     load()
     if _PROBE is None:
@@ -114,7 +115,8 @@ def build(cfg, rs):
     for i, j, _kind in cfg['edges']:
         if j not in deps[i]:
             deps[i].append(j)
-    tasks = {i: _PROBE(i, rs, sorted(deps[i])) for i in range(1, n + 1)}
+    if tasks is None:
+        tasks = {i: _PROBE(i, rs, sorted(deps[i])) for i in range(1, n + 1)}
     hard = {tasks[i]: [] for i in tasks}
     soft = {tasks[i]: [] for i in tasks}
     for i, j, kind in cfg['edges']:
@@ -135,11 +137,15 @@ def build(cfg, rs):
             if not any(i in m for m in nested['groups']):
                 units['t%d' % i] = tasks[i]
         hard_graph = _DepGraph()
+        soft_graph = _DepGraph()
         for name in nested['unit_order']:
             hard_graph.add_node(units[name])
-        for a, b in nested['uedges']:
-            hard_graph.add_dependency(units[a], on=units[b])
-        soft_graph = _DepGraph.from_dependency_dictionary(soft)
+        for edge in nested['uedges']:
+            a, b = edge[0], edge[1]
+            kind = edge[2] if len(edge) > 2 else 'hard'
+            (hard_graph if kind == 'hard' else soft_graph).add_dependency(units[a], on=units[b])
+        for i, j in nested.get('tsoft', [[i, j] for i, j, k in cfg['edges'] if k == 'soft']):
+            soft_graph.add_dependency(tasks[i], on=tasks[j])
         return tasks, hard_graph, soft_graph
     hard_graph = _DepGraph.from_dependency_dictionary(hard)
     soft_graph = _DepGraph.from_dependency_dictionary(soft)
@@ -187,8 +193,30 @@ def execute(cfg, strategy, on_step=None, max_steps=None, attach=None):
     sched = _Scheduler(hard_graph=hard_graph, soft_graph=soft_graph,
                        backend=Q_MOD.QueueScheduling(n_workers=cfg['workers']))
     holder['backend'] = sched.backend
+    # cfg['prior'] = dict(edges, outcome): before the run that is recorded, the same backend object serves another
+    # scheduler whose graph has other edges over the same task objects, from an empty environment.  What the backend
+    # did before must not matter to the recorded run.
+    prior = cfg.get('prior')
+    if prior:
+        pcfg = dict(n=cfg['n'], workers=cfg['workers'], edges=prior['edges'], outcome=prior['outcome'])
+        _t, phard, psoft = build(pcfg, rs, tasks=tasks)
+        psched = _Scheduler(hard_graph=phard, soft_graph=psoft, backend=sched.backend)
+        holder['recording'] = False
 
     def master():
+        if prior:
+            rs.cfg = pcfg
+            try:
+                psched.schedule(env=ENV_MOD.Env())
+            except Exception:  # pylint: disable=broad-except
+                pass
+            rs.cfg = cfg
+            rs.execs = {i: 0 for i in range(1, cfg['n'] + 1)}
+            rs.seen.clear()
+            rs.seen_step.clear()
+            rs.updates.clear()
+            holder['recording'] = True
+            holder['prior_steps'] = len(detsched.CTL.trace)
         res = None
         for _ in range(cfg.get('calls', 1)):
             res = sched.schedule(env=env)
@@ -392,7 +420,10 @@ def record(cfg, strategy, max_steps=None, hook=None):
             hook(ctl, rec_holder['rec'])
 
     def on_step(ctl):
-        rec_holder['rec'](ctl)
+        if ctl.holder.get('recording', True):
+            rec_holder['rec'](ctl)
+            if len(rec_holder['rec'].events) == 1 and cfg.get('prior'):
+                rec_holder['rec'].events[0]['op'] = 'start'      # the step that leaves the earlier run enters this one
     ex = execute(cfg, strategy, on_step=on_step, max_steps=max_steps, attach=attach)
     rec = rec_holder.get('rec')
     events = rec.events if rec else []
@@ -400,7 +431,7 @@ def record(cfg, strategy, max_steps=None, hook=None):
     trace = dict(cfg=dict(n=cfg['n'], workers=cfg['workers'], edges=[list(e) for e in cfg['edges']],
                           outcome=[cfg['outcome'].get(str(i), 'ok') for i in range(1, cfg['n'] + 1)],
                           init=[(cfg.get('init') or {}).get(str(i), 'ABSENT') for i in range(1, cfg['n'] + 1)],
-                          order=order, calls=cfg.get('calls', 1), nested=cfg.get('nested') or {}),
+                          order=order, calls=cfg.get('calls', 1), nested=cfg.get('nested') or {}, prior=cfg.get('prior') or {}),
                  events=events, verdict=ex.ctl.verdict, raised=repr(ex.raised) if ex.raised is not None else '',
                  schedule=[t for t, _ in ex.ctl.trace])
     return ex, trace
